@@ -24,7 +24,7 @@ func isStoreCallCC(cc *ssa.CallCommon, names ...string) bool {
 		if nt := engine.NamedOf(cc.Value.Type()); nt != nil {
 			recvT = nt.Obj().Name()
 		}
-		name = cc.Method.Name()
+		name = engine.MethodName(cc.Method)
 	} else if sc := cc.StaticCallee(); sc != nil && engine.RecvNamed(sc) != nil {
 		recvT = engine.RecvNamed(sc).Obj().Name()
 		name = engine.ShortName(sc)
@@ -126,7 +126,7 @@ func c07(c *Ctx) {
 	// ---- R07.1 -----------------------------------------------------------------------
 	isRowCreate := func(cs engine.CallSite) bool {
 		cc := cs.Common()
-		return cc.IsInvoke() && engine.IsNamed(cc.Value.Type(), "db", "Transaction") && (cc.Method.Name() == "CreateMessages" || cc.Method.Name() == "CreateMessageAndAddToMailbox")
+		return cc.IsInvoke() && engine.IsNamed(cc.Value.Type(), "db", "Transaction") && (engine.MethodName(cc.Method) == "CreateMessages" || engine.MethodName(cc.Method) == "CreateMessageAndAddToMailbox")
 	}
 	isStoreWrite := func(cs engine.CallSite) bool { return isStoreCall(cs, "Set", "SetUnchecked") }
 	n := 0
@@ -196,11 +196,11 @@ func c07(c *Ctx) {
 			redownload := false
 			for _, a := range cs.Common().Args {
 				if engine.AnyBackward(a, engine.FlowOpts{Loads: true, Calls: func(call *ssa.Call) []ssa.Value { return call.Call.Args }}, func(x ssa.Value) bool {
-					if call, ok := x.(*ssa.Call); ok && call.Call.IsInvoke() && call.Call.Method.Name() == "GetMessageLiteral" {
+					if call, ok := x.(*ssa.Call); ok && call.Call.IsInvoke() && engine.MethodName(call.Call.Method) == "GetMessageLiteral" {
 						return true
 					}
 					if ex, ok := x.(*ssa.Extract); ok {
-						if call, ok := ex.Tuple.(*ssa.Call); ok && call.Call.IsInvoke() && call.Call.Method.Name() == "GetMessageLiteral" {
+						if call, ok := ex.Tuple.(*ssa.Call); ok && call.Call.IsInvoke() && engine.MethodName(call.Call.Method) == "GetMessageLiteral" {
 							return true
 						}
 					}
@@ -424,11 +424,11 @@ func c07reads(c *Ctx) {
 	R.Table("R07.6 accepted swallowed reads", rows...)
 	k := c.errorsPropagated("R07.6", []string{"internal/state", "internal/backend"}, func(cs engine.CallSite) (string, bool) {
 		cc := cs.Common()
-		if cc.IsInvoke() && engine.IsNamed(cc.Value.Type(), "db", "Transaction") && !isWriteMethod(cc.Method.Name()) {
-			if _, ok := except[c.name(cs.Fn)+"|"+cc.Method.Name()]; ok {
+		if cc.IsInvoke() && engine.IsNamed(cc.Value.Type(), "db", "Transaction") && !isWriteMethod(engine.MethodName(cc.Method)) {
+			if _, ok := except[c.name(cs.Fn)+"|"+engine.MethodName(cc.Method)]; ok {
 				return "", false
 			}
-			return "tx." + cc.Method.Name(), true
+			return "tx." + engine.MethodName(cc.Method), true
 		}
 		return "", false
 	}, "the transaction continues as if the row did not exist and commits a partial effect")
@@ -455,7 +455,7 @@ func c07deletedIsMarked(c *Ctx) {
 			continue
 		}
 		cut := c.mustCallInstrs(g, func(cc *ssa.CallCommon) bool {
-			return cc.IsInvoke() && strings.HasPrefix(cc.Method.Name(), "MarkMessageAsDeleted")
+			return cc.IsInvoke() && strings.HasPrefix(engine.MethodName(cc.Method), "MarkMessageAsDeleted")
 		}, 2)
 		skip := map[engine.Edge]bool{}
 		for _, b := range g.Blocks {
